@@ -205,6 +205,178 @@ Example C08_shape_example_cardinal :
   Cardinal.spav a 2 = Some [2; 3]%positive /\ Cardinal.pav a 2 = Cardinal.AR_ok [Cand 2%positive; Cand 3%positive].
 Proof. vm_compute. repeat split; reflexivity. Qed.
 
+(* ---------------------------------------------------------------------------------------------------------------
+   The shape clause for the evaluators that were only decided per explored case (Proofs/Shape3_proofs.v,
+   Proofs/ShapeElim_proofs.v, Proofs/TidemanIndex_proofs.v). *)
+From VL Require Model.Threshold Model.Hybrids Model.Elimination Model.ApprovalSimple Model.AllocScore Model.Quota Proofs.AllocScore_proofs Proofs.Hybrids_proofs Proofs.Shape3_proofs Proofs.ShapeElim_proofs
+     Proofs.TidemanIndex_proofs.
+
+(* seatless selectors (thresholds, bracketers, Condorcet winner, Smith / Schwartz set): the right shape is a duplicate-free
+   list of candidates of the votes - the declarative shape of a selection of plain winners for as many seats as it has entries *)
+Theorem C08_seatless_shape : forall (cands r : list C),
+  Shape3_proofs.seatless_shape cands r <-> sel_shape cands (length r) (map Cand r).
+Proof. exact Shape3_proofs.seatless_sel_shape. Qed.
+
+Theorem C08_shape_threshold : forall (s : Threshold.sel) (votes : list (C * Q)),
+  NoDup (map fst votes) -> NoDup (Threshold.sel_eval s votes) /\ incl (Threshold.sel_eval s votes) (map fst votes).
+Proof. exact Shape3_proofs.threshold_shape. Qed.
+
+Theorem C08_shape_bracketer : forall evals default bracket (votes : list (C * Q)),
+  NoDup (map fst votes) ->
+  NoDup (Threshold.bracket_eval evals default bracket votes) /\ incl (Threshold.bracket_eval evals default bracket votes) (map fst votes).
+Proof. exact Shape3_proofs.bracket_shape. Qed.
+
+Theorem C08_shape_condorcet_winner : forall v : Condorcet.pvotes,
+  (NoDup (Condorcet.condorcet_winner v) /\ incl (Condorcet.condorcet_winner v) (Condorcet.candidates v)) /\
+  (length (Condorcet.condorcet_winner v) <= 1)%nat.
+Proof. exact Shape3_proofs.condorcet_winner_shape. Qed.
+
+(* Smith set (ties = true) and Schwartz set (ties = false), any pairwise dictionary *)
+Theorem C08_shape_smith_schwartz : forall (v : Condorcet.pvotes) (ties : bool),
+  NoDup (Condorcet.smith_schwartz v ties) /\ incl (Condorcet.smith_schwartz v ties) (Condorcet.candidates v).
+Proof. exact Shape3_proofs.smith_schwartz_shape. Qed.
+
+(* open list: exactly n distinct members of the list, for every configuration *)
+Theorem C08_shape_openlist : forall cfg (votes : list (C * Q)) (n : nat) (lst : list C),
+  NoDup lst -> NoDup (map fst votes) -> incl (map fst votes) lst -> (1 <= n <= length lst)%nat ->
+  sel_shape lst n (map Cand (Threshold.openlist_eval cfg votes n lst)).
+Proof. exact Shape3_proofs.openlist_shape. Qed.
+
+(* QuotaSelector elects the candidates that reach the quota, through get_n_best: AT MOST n by design.  For every quota
+   function and flag: never more than n entries, well-shaped for their number, a short answer is plain winners only, and the
+   answer is full whenever n candidates reach the quota.  The exactly-n clause is false of it (design, not a defect). *)
+Definition C08_shape_quota_selector_full_statement : Prop :=
+  forall quota ae select (votes : list (C * Q)) (n : Z) r,
+    NoDup (map fst votes) -> (1 <= n)%Z -> (Z.to_nat n <= length votes)%nat ->
+    QuotaDistributor.qsel_evaluate quota ae select votes n = QuotaDistributor.QS_ok r -> sel_shape (map fst votes) (Z.to_nat n) r.
+
+Theorem C08_shape_quota_selector_partial : forall quota ae select (votes : list (C * Q)) (n : Z) r,
+  NoDup (map fst votes) -> (1 <= n)%Z -> QuotaDistributor.qsel_evaluate quota ae select votes n = QuotaDistributor.QS_ok r ->
+  (length r <= Z.to_nat n)%nat /\ sel_shape (map fst votes) (length r) r /\
+  ((length r < Z.to_nat n)%nat -> ties_of r = []) /\
+  ((Z.to_nat n <= length (filter (fun cv => QuotaDistributor.fulfills ae (snd cv) (quota (QuotaDistributor.qsumv votes) n)) votes))%nat ->
+   length r = Z.to_nat n).
+Proof. exact Shape3_proofs.quota_selector_shape. Qed.
+
+Theorem C08_shape_quota_selector_refuted : ~ C08_shape_quota_selector_full_statement.
+Proof.
+  intros H.
+  assert (Hs := H (fun total n => (total / inject_Z n)%Q) false true [(1%positive, 10%Q); (2%positive, 1%Q)] 2%Z [Cand 1%positive]).
+  assert (Hnd : NoDup (map fst [(1%positive, 10%Q); (2%positive, 1%Q)])).
+  { cbn. constructor; [intros [E|[]]; discriminate|constructor; [intros []|constructor]]. }
+  destruct (Hs Hnd ltac:(lia) ltac:(cbn; lia) ltac:(vm_compute; reflexivity)) as [Hlen _]. discriminate Hlen.
+Qed.
+
+(* Benham (with the repaired elimination step that /repo HEAD runs): on every well-formed profile (no candidate twice on a
+   ballot, no negative weight) with a pairwise contest the answer is one entry in shape - a plain candidate of the votes, or one
+   tie object of (the last) two or more of them - and the only other outcome is the declared refusal NotImplementedError *)
+Theorem C08_shape_benham : forall votes : Hybrids.rvotes,
+  Hybrids_proofs.wf_votes votes = true -> Hybrids.pairwise votes <> [] ->
+  (exists r, Hybrids.benham true votes = Hybrids.H_ok r /\ sel_shape (Hybrids_proofs.cands_of votes) 1 r) \/
+  Hybrids.benham true votes = Hybrids.H_nie.
+Proof.
+  intros votes Hwf Hne. destruct (ShapeElim_proofs.benham_shape votes Hwf Hne) as [(r & Hr & Hn)|H]; [left|right; exact H].
+  exists r. split; [exact Hr|apply Shape2_proofs.nform_shape, Hn].
+Qed.
+
+(* ... without a pairwise contest (a single candidate; every ballot one shared rank) both hybrids raise IndexError:
+   known finding C05-hybrid-empty-pairwise *)
+Theorem C08_shape_hybrids_single_candidate_refuted : exists votes : Hybrids.rvotes,
+  Hybrids_proofs.wf_votes votes = true /\ length (Hybrids_proofs.cands_of votes) = 1%nat /\
+  Hybrids.benham true votes = Hybrids.H_index /\ Hybrids.tideman_alt true votes 1 = Hybrids.H_index.
+Proof. exists [([Convert.IP 1%positive], 1%Z)]. vm_compute. repeat split; reflexivity. Qed.
+
+(* Tideman alternative, one seat: one plain candidate of the votes, or the declared refusal - never IndexError / KeyError
+   (Proofs/TidemanIndex_proofs.v: an elimination without a tie leaves a pairwise contest) *)
+Theorem C08_shape_tideman : forall votes : Hybrids.rvotes,
+  Hybrids_proofs.wf_votes votes = true -> Hybrids.pairwise votes <> [] ->
+  (exists w, Hybrids.tideman_alt true votes 1 = Hybrids.H_ok [Cand w] /\ sel_shape (Hybrids_proofs.cands_of votes) 1 [Cand w]) \/
+  Hybrids.tideman_alt true votes 1 = Hybrids.H_nie.
+Proof.
+  intros votes Hwf Hne.
+  destruct (ShapeElim_proofs.tideman_outcomes votes 1 Hwf) as [(w & Hr & Hw & _)|[H|[H|(_ & Hn & _)]]].
+  - left. exists w. split; [exact Hr|]. apply Shape2_proofs.nform_shape.
+    apply (Shape2_proofs.nform_plain (Hybrids_proofs.cands_of votes) [w]); [constructor; [intros []|constructor]|intros x [<-|[]]; exact Hw].
+  - right. exact H.
+  - destruct (TidemanIndex_proofs.tideman_no_index votes 1 Hwf Hne H).
+  - congruence.
+Qed.
+
+(* ... every outcome for any number of seats: for more than one seat (another candidate standing) the only outcomes are the
+   declared refusal and the TypeError of the further tiers (RANKED_SUBSETTER.convert called without the subset): the
+   exactly-n clause is false of TidemanAlternative for n >= 2 - known finding C08-tideman-multiseat *)
+Theorem C08_shape_tideman_outcomes : forall (votes : Hybrids.rvotes) (n : nat),
+  Hybrids_proofs.wf_votes votes = true -> Hybrids.pairwise votes <> [] ->
+  (exists w, Hybrids.tideman_alt true votes n = Hybrids.H_ok [Cand w] /\ In w (Hybrids_proofs.cands_of votes) /\
+             (n = 1%nat \/ ShapeElim_proofs.one_candidate votes w)) \/
+  Hybrids.tideman_alt true votes n = Hybrids.H_nie \/
+  (Hybrids.tideman_alt true votes n = Hybrids.H_type /\ n <> 1%nat /\ (2 <= length (Hybrids_proofs.cands_of votes))%nat).
+Proof.
+  intros votes n Hwf Hne. destruct (ShapeElim_proofs.tideman_outcomes votes n Hwf) as [H|[H|[H|H]]]; [left; exact H|right; left; exact H| |right; right; exact H].
+  destruct (TidemanIndex_proofs.tideman_no_index votes n Hwf Hne H).
+Qed.
+
+Theorem C08_shape_tideman_multiseat_refuted : exists votes : Hybrids.rvotes,
+  Hybrids_proofs.wf_votes votes = true /\ length (Hybrids_proofs.cands_of votes) = 2%nat /\
+  Hybrids.tideman_alt true votes 2 = Hybrids.H_type.
+Proof. exists [([Convert.IP 1%positive; Convert.IP 2%positive], 2%Z); ([Convert.IP 2%positive; Convert.IP 1%positive], 1%Z)]. vm_compute. repeat split; reflexivity. Qed.
+
+(* Baldwin (Model/Elimination.v), any rank scorer: on every profile without a candidate twice on a ballot and without an empty
+   shared rank (any integer weights) and every 1 <= n <= candidates present it ANSWERS - no refusal, no exception - with exactly
+   n entries in shape: plain winners, then one tie object (the tied losers of the decisive round) once per open seat *)
+Theorem C08_shape_baldwin : forall (sc : Convert.scorer) (votes : Hybrids.rvotes) (n : nat),
+  ShapeElim_proofs.ranks_ok votes = true -> (1 <= n <= length (STV.all_ranked_candidates (Hybrids.qv votes)))%nat ->
+  exists r, Elimination.baldwin sc votes n = Elimination.B_ok r /\ sel_shape (STV.all_ranked_candidates (Hybrids.qv votes)) n r.
+Proof.
+  intros sc votes n Hr Hn. destruct (ShapeElim_proofs.baldwin_nform sc votes n Hr Hn) as (r & E & Hf).
+  exists r. split; [exact E|apply Shape2_proofs.nform_shape, Hf].
+Qed.
+
+(* positional selectors (Borda, Dowdall, ... : RankedToPositionalVotes in front of plurality), any rank scorer: the converter
+   answers on every such profile and its scores, handed to get_n_best, give exactly n entries in shape *)
+Theorem C08_shape_positional : forall (sc : Convert.scorer) (votes : Hybrids.rvotes) (n : nat),
+  ShapeElim_proofs.ranks_ok votes = true -> (1 <= n <= length (STV.all_ranked_candidates (Hybrids.qv votes)))%nat ->
+  exists d, Elimination.positional sc votes = Some d /\
+            sel_shape (STV.all_ranked_candidates (Hybrids.qv votes)) n (get_n_best Qle_bool d n).
+Proof.
+  intros sc votes n Hr Hn. destruct (ShapeElim_proofs.positional_nform sc votes n Hr Hn) as (d & E & Hf).
+  exists d. split; [exact E|apply Shape2_proofs.nform_shape, Hf].
+Qed.
+
+(* approval voting and satisfaction approval voting (ApprovalToSimpleVotes, plain or split, in front of plurality;
+   Model/ApprovalSimple.v): every approval profile, every 1 <= n <= candidates approved by somebody *)
+Theorem C08_shape_approval : forall (split : bool) (votes : list (list C * Q)) (n : nat),
+  (1 <= n <= length (Shape2_proofs.approval_cands votes))%nat ->
+  sel_shape (Shape2_proofs.approval_cands votes) n (ApprovalSimple.approval_plurality split votes n).
+Proof. intros split votes n Hn. apply Shape2_proofs.nform_shape, Shape3_proofs.approval_plurality_nform, Hn. Qed.
+
+(* allocated score: the shape clause is false of the faithful model (Model/AllocScore.v) - three candidates level for two
+   seats come back as ONE tie entry (known finding C08-allocated-score-shape; the witness of C12_alloc_tie_shape_refuted) *)
+Theorem C08_shape_allocated_score_refuted : exists (votes : AllocScore.wprofile) (r : list (res C)),
+  AllocScore.alloc_select (Quota.QNamed 1) [] votes 2 = inl r /\ AllocScore.all_scored votes = [1; 2; 3]%positive /\
+  ~ sel_shape [1; 2; 3]%positive 2 r.
+Proof.
+  exists AllocScore_proofs.w_tie3, [TieR [1; 2; 3]%positive]. split; [exact AllocScore_proofs.alloc_tie_shape_witness|].
+  split; [vm_compute; reflexivity|]. intros [Hlen _]. discriminate Hlen.
+Qed.
+
+(* non-vacuity: a three-cycle above a fourth candidate with a shared rank satisfies the hypotheses; Benham and Tideman
+   eliminate and elect; Baldwin fills one, two (the tied losers B, C for the second seat) and three seats; thresholds and
+   Smith / Schwartz sets answer *)
+Example C08_shape_example_elimination :
+  let ip := Convert.IP in
+  let b := fun (l : list positive) (w : Z) => (map ip l, w) in
+  let v : Hybrids.rvotes := [b [1; 2; 3; 4]%positive 3%Z; b [2; 3; 1; 4]%positive 2%Z; b [3; 1; 2]%positive 2%Z;
+                             ([Convert.IS [1; 2]%positive; ip 4%positive], 1%Z)] in
+  let t : Hybrids.rvotes := [b [1; 2; 3]%positive 1%Z; b [1; 3; 2]%positive 1%Z] in
+  Hybrids_proofs.wf_votes v = true /\ ShapeElim_proofs.ranks_ok v = true /\ Hybrids.pairwise v <> [] /\
+  Hybrids.benham true v = Hybrids.H_ok [Cand 1%positive] /\ Hybrids.tideman_alt true v 1 = Hybrids.H_ok [Cand 1%positive] /\
+  Elimination.baldwin (Convert.Borda 0) v 2 = Elimination.B_ok [Cand 2; Cand 1]%positive /\
+  Elimination.baldwin (Convert.Borda 0) t 2 = Elimination.B_ok [Cand 1%positive; TieR [2; 3]%positive] /\
+  Elimination.baldwin (Convert.Borda 0) t 1 = Elimination.B_ok [Cand 1%positive] /\
+  Condorcet.smith_schwartz (Hybrids.pairwise v) true = [1; 2; 3]%positive.
+Proof. vm_compute. repeat split; try reflexivity. discriminate. Qed.
+
 Print Assumptions C08_selection_normal_form.
 Print Assumptions C08_selection_shape.
 Print Assumptions C08_checker_reflects.
@@ -224,3 +396,20 @@ Print Assumptions C08_shape_bucklin_partial.
 Print Assumptions C08_shape_bucklin_refuted.
 Print Assumptions C08_shape_star_partial.
 Print Assumptions C08_shape_star_refuted.
+Print Assumptions C08_seatless_shape.
+Print Assumptions C08_shape_threshold.
+Print Assumptions C08_shape_bracketer.
+Print Assumptions C08_shape_condorcet_winner.
+Print Assumptions C08_shape_smith_schwartz.
+Print Assumptions C08_shape_openlist.
+Print Assumptions C08_shape_quota_selector_partial.
+Print Assumptions C08_shape_quota_selector_refuted.
+Print Assumptions C08_shape_benham.
+Print Assumptions C08_shape_hybrids_single_candidate_refuted.
+Print Assumptions C08_shape_tideman.
+Print Assumptions C08_shape_tideman_outcomes.
+Print Assumptions C08_shape_tideman_multiseat_refuted.
+Print Assumptions C08_shape_baldwin.
+Print Assumptions C08_shape_positional.
+Print Assumptions C08_shape_allocated_score_refuted.
+Print Assumptions C08_shape_approval.
